@@ -106,7 +106,10 @@ class WebApp:
         if len(title) == 0:
             name = self.get_script_path(script_config)
             spaced = name.replace('_', ' ').replace('-', ' ')
-            title = spaced.title()
+            # Capitalize each word; str.title() would also start a new word
+            # after a digit or an apostrophe ("Tv2X Mode", "Don'T Blink").
+            title = ' '.join(
+                word.capitalize() for word in spaced.split(' '))
         return title
 
     def get_script_path(self, script_config):
